@@ -5,6 +5,16 @@ ROOT = os.path.dirname(os.path.dirname(os.path.abspath(__file__)))
 IDS = ["C%02d" % i for i in range(1, 21)]
 
 CHECKS = {
+    "C15": dict(
+        technique="trace validation of TLC-enumerated build histories against Builder.tla (re-executed by TLC, Flatten computed in TLA+), design invariants TreeShaped/FlatBalanced/BranchesInRange",
+        text="Builder.tla models the FunctionBuilder arena (append and positional insert of stack-neutral units, block_at/loop_at/if_else_at, dangling sequences attached later, br/br_if to enclosing sequences) and defines the in-order flattening with label depths. TLC enumerates every build history up to the bound (and random longer walks); each is replayed on the real builder (closure API at the end of a sequence, *_at API elsewhere), finished and emitted; the trace spec re-executes the history with the same actions and requires the decoded body to equal Flatten modulo an injective, type-preserving local map with the parameter pinned.",
+        note="Trusted: wasmparser operator decoding, TLC. Units are stack-neutral by construction, so every enumerated tree is well typed; other instruction kinds are covered by C03.",
+        design_ref="DESIGN.md §5 C15"),
+    "C16": dict(
+        technique="TLA+ transcription of both work-stack traversals checked against the recursive walk on all small trees (Traversal.tla); callback logs of recording visitors judged by TLC (Trace_Traversal.tla); stack-depth independence measured",
+        text="Traversal.tla transcribes dfs_in_order and dfs_pre_order_mut with their explicit stacks over the trees of Builder.tla; TLC checks that the in-order event list equals the recursive walk and that the mutable traversal visits every sequence and instruction exactly once. On the implementation, recording visitors (immutable, mutable with default hooks, mutable with overridden hooks) run over fixtures, generated and builder-made functions; TLC compares every log with the recursive walk of the tree obtained by plain recursion, operands extracted by matching on the instruction. Depth 10^5 is parsed, traversed, GC'd and emitted on a 256 KiB stack in a child process.",
+        note="Trusted: TLC. Stack-depth independence is observed, not modelled (beyond the absence of recursion in the transcribed algorithms).",
+        design_ref="DESIGN.md §5 C16"),
     "C02": dict(
         technique="TLC invariants NoPanic / WFInvariant / EmittedBalanced on the pipeline, edit and body models; validity monitor (Trace_Valid.tla) and trace validation of TLC-generated edit histories (Trace_Edits.tla)",
         text="Walrus.tla (parse, GC worklist, section-ordered emission with index assignment) is model-checked over all families and pass sequences: every get_*_index of an emit action finds an assigned id (NoPanic). Edits.tla defines the well-formed edits (guards = no dangling reference) and TLC checks they keep the module closed. On the implementation every valid input x {none, GC} x names x producers must complete and validate, and TLC-generated well-formed edit scripts (every enabled single edit of sampled real modules plus random walks) are replayed through the public API, validated step by step and closed by emit and gc;emit which must validate.",
